@@ -320,6 +320,30 @@ ROUND4 = {
     "C20": "Read-through primary CDS (in-frame stop): primary protein = member's translation; children order and primary after an export and a dictionary round trip.",
 }
 
+# coverage added in the fifth round
+ROUND5 = {
+    "C01": "No identity comparison between Parent / Location / Sequence values (C01.R6i, shared with C10.R6).",
+    "C02": "Strict parent refusal with a strand mismatch on top, EmptyLocation() as argument of located receivers (one finding fixed), identity rule (C02.R6i); operands with 40 blocks and with more blocks than any size threshold found in the module (C02.R9).",
+    "C03": "Chains on compound-located operands: append accepted exactly when wholly 3', reverse complement and slices of products (C03.RC).",
+    "C04": "Chunk-relative locations lifted onto the whole chromosome; identity rule (C04.R6i).",
+    "C05": "Ambiguity letters in the first / a later codon under strict (given or left out) and non-strict translation.",
+    "C06": "Transcripts whose CDS skips a base inside an exon.",
+    "C07": "Merged transcript / CDS of chunk-built genes; from_chunk_relative_location with an annotated frameshift.",
+    "C08": "Objects derived by incorporate_variants with moved coordinates have a new identifier, for every sibling class (C08.RD); equality and hash of re-built objects; hash-seed independence of guid and dictionary.",
+    "C09": "Members named by two requested identifiers; identifier queries under the opposite set order; get_children_by_type; variant-collection queries.",
+    "C10": "The same object asked again; objects derived from warmed-up operands (C10.RR).",
+    "C11": "Keys that differ only in case; several collections (one un-annotated) in one file; export under the opposite set order.",
+    "C12": "Collections with bounds narrower than the sequence; export of a derived collection; records under the opposite set order.",
+    "C13": "Containers built without sequence; haplotype mapping on chunks beyond the first 128 kb bin; container-level incorporation (C13.RN).",
+    "C14": "Mode flag as 1 / 0 / None; unnamed transcripts under both set orders.",
+    "C15": "Start sets asked with the NCBI table number.",
+    "C16": "Feature and variant collections in every boundary query.",
+    "C17": "Mixed-strand genes; multi-valued qualifiers and genes without a symbol under both set orders (one finding fixed).",
+    "C18": "Mixed-case merge values, also under the opposite set order.",
+    "C19": "Validators (C19.RV), intersect (C19.RI), overlap refusal independent of the supplied order.",
+    "C20": "The feature returned by get_merged_* is itself well formed.",
+}
+
 NOT_YET = "rules for this property are not implemented in this commit (see DESIGN.md section 6b for the order)"
 
 
@@ -338,7 +362,7 @@ def main():
                 replay_cmd_template="./check --replay {path}",
                 engine="sa",
                 level_claimed=dict(category="other", text=c["text"] + (" Added later: " + ROUND3[pid] if pid in ROUND3 else "")
-                                   + (" Round 4: " + ROUND4[pid] if ROUND4.get(pid, "-") != "-" else "") + ("" if pid == "C10" else " " + RA),
+                                   + (" Round 4: " + ROUND4[pid] if ROUND4.get(pid, "-") != "-" else "") + (" Round 5: " + ROUND5[pid] if pid in ROUND5 else "") + ("" if pid == "C10" else " " + RA),
                                    design_ref=c["design"]),
                 level_note=c["note"],
                 technique=c["technique"],
